@@ -10,6 +10,6 @@ s=open(p).read()
 assert s.count(old)>=1, 'pattern not found: '+old
 s=s.replace(old,new,1); open(p,'w').write(s)
 PY
-cd /verif; PYVC_REPO=$D ./check $1 --tier quick; rc=$?
+cd /verif; PYVC_REPO=$D PYVC_EVIDENCE_DIR=$D/evidence ./check $1 --tier quick; rc=$?
 rm -rf $D
 echo "rc=$rc"
